@@ -662,6 +662,16 @@ func c15Processor(c *Check, P string, outer, C *ssa.Function, kind string) {
 		ErrorsOnlyFrom(c, P+".O3", "PROCESSOR-FAILS-ONLY-ON-HANDLING-FAILURE", C, srcs, ackUnkFalse, "the "+kind+" processor returns an error (⇒ Nack) only when decoding or handling this message failed, or for an unhandled event with AckOnUnknownEvent off — a message of another kind (other name, no name) is not an error")
 	}
 
+	// a message is acknowledged (nil) only after the name comparison decided: nothing in front of it — an empty payload, a
+	// missing header — answers for the handler
+	if kind == "command" || kind == "event" {
+		decided := append(append([]Edge{}, match...), mismatch...)
+		for i, r := range Returns(C) {
+			if RetNil(r, 0) {
+				c.Report(GuardedBy(C, r, decided), P+".O2", "ACK-ONLY-AFTER-THE-NAME-WAS-COMPARED", C, r.Pos(), fmt.Sprintf("%s return#%d", kind, i), "every nil return (⇒ Ack) lies behind the comparison of the message's name with the handler's: no earlier shortcut acknowledges a message the handler never saw (a zero-length payload is a valid encoding)")
+			}
+		}
+	}
 	// O2 unknown policy
 	switch kind {
 	case "command", "event":
